@@ -211,7 +211,6 @@ CrUpdate(NE, NI) ==
     /\ G("C02", SameEni(NI))
     /\ G("C02", \A y \in Bound(NI) : IsNew(y) =>
             /\ y.p \in Pods
-            /\ \A x \in crI : x.e = y.e /\ x.a = y.a /\ x.p # 0 => ~PodLive(x.p)                    \* never taken from a pod that still exists
             /\ \/ TakeOver(y)                                                                        \* the address the pod reports: adopted as is
                \/ /\ y.st = "Valid" /\ EniSt(NE, y.e) = "InUse"                                      \* otherwise: valid, on an in-use interface,
                   /\ (IF pods[y.p].rdma THEN EniRdma(NE, y.e) ELSE (conf.rdma > 0 => ~EniRdma(NE, y.e)))   \* RDMA pods on RDMA interfaces only and vice versa,
